@@ -7,7 +7,7 @@ export CARGO_NET_OFFLINE=true
 mkdir -p work evidence replays
 [ -f harness/Cargo.lock ] || cp /repo/Cargo.lock harness/Cargo.lock
 # only the binaries of integrated checks (others may be work in progress)
-BINS="--bin storedrv --bin crashdrv --bin concdrv --bin kinddrv --bin totaldrv --bin jsondrv --bin fjsondrv --bin canondrv --bin layoutdrv --bin matchdrv --bin hlldrv --bin burstdrv"
+BINS="--bin storedrv --bin crashdrv --bin concdrv --bin kinddrv --bin totaldrv --bin jsondrv --bin fjsondrv --bin canondrv --bin layoutdrv --bin matchdrv --bin hlldrv --bin burstdrv --bin rebuilddrv"
 (cd harness && RUSTFLAGS="-Awarnings" cargo build --offline --quiet $BINS && RUSTFLAGS="-Awarnings" cargo build --offline --quiet --release $BINS)
 python3 - <<'PY'
 import sys, os
